@@ -136,6 +136,9 @@ class Universe:
         mps = mps.scale(float(r.uniform(0.5, 2.0)))
         if i % 2 == 0:
             mps.coeff = float(r.uniform(0.5, 1.5)) * (-1 if r.random() < 0.5 else 1)
+            if r.random() < 0.2:
+                # a prefactor that agrees with the other generators' 1 to np.allclose's default tolerance but is not equal
+                mps.coeff = 1.0 + 4e-7
         obj = MpDm.from_mps(mps) if self.kind == "mpdm" else mps
         c, to_right, form = gauge["c"], gauge["toRight"], gauge["form"]
         if form == "right":
@@ -426,7 +429,9 @@ class Replayer:
                 tp = _nocoeff_dense(p)
                 d = o.conj().dot(p)
                 ref = np.vdot(tr.reshape(-1), tp.reshape(-1))
-                if abs(d - ref) > 1e-9 * (abs(ref) + np.linalg.norm(tr) * np.linalg.norm(tp) + 1e-30):
+                # absolute floor: a state of norm 1e-4 produced by cancellation between O(1) site tensors carries round-off of
+                # order 1e-16 in its inner products (thorough tier: <x|x> = 7.35e-9 off by 2.6e-17)
+                if abs(d - ref) > 1e-9 * (abs(ref) + np.linalg.norm(tr) * np.linalg.norm(tp)) + 1e-13:
                     V(f"C03:observe:dot:{a}", f"<{r}|{h}> = {d} but the dense inner product is {ref}", si)
                     ok = False
                 if h != r:
